@@ -2,6 +2,8 @@ import GopatchModel.Sexp
 import GopatchModel.Cli
 import GopatchModel.Generated
 import GopatchModel.Walk
+import GopatchModel.MetaP
+import GopatchModel.Finder
 open Gopatch
 
 def errStr : Err → String
@@ -89,12 +91,99 @@ def handleWalk (id : String) (xs : List Sx) : String :=
   | none => s!"(res {id} (error))"
   | some fs => s!"(res {id} (files{String.join (fs.map (fun f => " " ++ q f))}))"
 
+def hexVal (c : Char) : UInt8 :=
+  if c.isDigit then (c.toNat - '0'.toNat).toUInt8 else (c.toNat - 'a'.toNat + 10).toUInt8
+
+def unhex : List Char → List UInt8
+  | a :: b :: rest => (hexVal a * 16 + hexVal b) :: unhex rest
+  | _ => []
+
+def bytesStr (b : List UInt8) : String :=
+  (String.fromUTF8? (ByteArray.mk b.toArray)).getD (String.ofList (b.map (fun x => Char.ofNat x.toNat)))
+
+def lcStr (content : Sec.Bytes) (off : Option Nat) : String :=
+  match off with
+  | none => "none"
+  | some o => let p := Sec.position content o; s!"{p.1} {p.2}"
+
+def secKind : Sec.ErrKind → String
+  | .badName _ => "badname" | .badHeader => "badheader" | .eofMeta => "eofmeta" | .noChange => "nochange"
+
+def mKind : Sec.MErr → String
+  | .scan => "other" | .expectedVar => "expectedVar" | .expectedIdent => "expectedIdent"
+  | .expectedSemi => "expectedSemi" | .unknownType => "unknownType" | .duplicate _ => "duplicate"
+
+def decodeTok : Sx → Option Sec.Tok
+  | .list (.atom "t" :: o :: k :: t :: es) => some { off := o.asNat, kind := k.asStr, text := t.asStr, errs := es.map Sx.asNat }
+  | _ => none
+
+def handleFront (id : String) (xs : List Sx) : String :=
+  let content : Sec.Bytes := match Sx.field xs "hex" with
+    | [h] => unhex h.asStr.toList
+    | _ => []
+  let (chs, serrs) := Sec.split content
+  let lineStr := fun (l : Sec.Line) => s!" ({lcStr content (some l.off)} {q (bytesStr l.text)})"
+  let chStr := fun (c : Sec.Change) =>
+    s!" (ch (hdr {lcStr content c.headerOff}) {q (bytesStr c.name)} (meta{String.join (c.metaL.map lineStr)}) (at {lcStr content c.atOff}) (patch{String.join (c.patch.map lineStr)}) (comments{String.join (c.comments.map (fun b => " " ++ q (bytesStr b)))}))"
+  let serrStr := String.join (serrs.map (fun e => s!" ({lcStr content (some e.off)} {secKind e.kind})"))
+  -- diagnostics of the stages after sectioning
+  let metas : List (List Sec.Tok) := (Sx.field xs "metas").map (fun m => match m with
+    | .list (.atom "m" :: ts) => ts.filterMap decodeTok
+    | _ => [])
+  let perChange := (chs.zip metas).map (fun (c, toks) =>
+    let (ds, errs) := Sec.parseMeta toks
+    (c, ds, errs))
+  let fmtErr := fun (c : Sec.Change) (e : Nat × Sec.MErr) =>
+    let p := Sec.mapPos content c.metaL e.1
+    match e.2 with
+    | .duplicate f => let p0 := Sec.mapPos content c.metaL f; s!" ({p.1} {p.2} duplicate {p0.1} {p0.2})"
+    | k => s!" ({p.1} {p.2} {mKind k})"
+  let diag :=
+    if !serrs.isEmpty then "section" ++ serrStr
+    else match perChange.find? (fun (_, _, errs) => !errs.isEmpty) with
+      | some (c, _, errs) => "meta" ++ String.join (errs.map (fmtErr c))
+      | none =>
+          let cerrs := perChange.flatMap (fun (c, ds, _) => (Sec.compileMetaErrs (ds.filterMap (fun x => x)) []).map (fmtErr c))
+          if cerrs.isEmpty then "pass" else "compile" ++ String.join cerrs
+  s!"(res {id} (serr{serrStr}) (changes{String.join (chs.map chStr)}) (diag {diag}))"
+
+def kindOfStr (k : String) : Fnd.K :=
+  match k with
+  | "eof" => .eof | "package" => .package_ | "import" => .import_ | "lparen" => .lparen | "rparen" => .rparen
+  | "period" => .period | "ident" => .ident | "type" => .type_ | "const" => .const_ | "var" => .var_
+  | "func" => .func_ | "lbrace" => .lbrace | "ellipsis" => .ellipsis | "comma" => .comma | _ => .other
+
+def hexDigit (n : Nat) : Char := if n < 10 then Char.ofNat (48 + n) else Char.ofNat (87 + n)
+def toHex (bs : List UInt8) : String :=
+  String.ofList (bs.flatMap (fun b => [hexDigit (b.toNat / 16), hexDigit (b.toNat % 16)]))
+
+def augStr : Fnd.Aug → String
+  | .fakePackage s => s!" (pkg {s})"
+  | .fakeFunc s b => s!" (func {s} {if b then 1 else 0})"
+  | .dots s e n => s!" (dots {s} {e} {if n then 1 else 0})"
+
+def handleAugment (id : String) (xs : List Sx) : String :=
+  if (Sx.field xs "scanerr").length > 0 then s!"(res {id} (err))" else
+  let src : List UInt8 := match Sx.field xs "hex" with
+    | [h] => unhex h.asStr.toList
+    | _ => []
+  let toks : List Fnd.Tok := (Sx.field xs "toks").filterMap (fun t => match t with
+    | .list [k, o, l] => some { kind := kindOfStr k.asStr, off := o.asNat, line := l.asNat }
+    | _ => none)
+  match Fnd.findTotal toks with
+  | none => s!"(res {id} (illformed))"
+  | some augs =>
+      let (dst, out, adjs) := Fnd.rewrite src augs
+      s!"(res {id} (src {toHex dst}) (augs{String.join (out.map augStr)}) (adjs{String.join (adjs.map (fun a => s!" ({a.1} {a.2})"))}))"
+
 def handleLine (line : String) : String :=
   match Sx.ofString line with
   | .list (.atom "case" :: id :: .atom "engine" :: xs) => handleEngine id.asStr xs
   | .list (.atom "case" :: id :: .atom "cli" :: xs) => handleCli id.asStr xs
   | .list (.atom "case" :: id :: .atom "generated" :: xs) => handleGenerated id.asStr xs
   | .list (.atom "case" :: id :: .atom "walk" :: xs) => handleWalk id.asStr xs
+  | .list (.atom "case" :: id :: .atom "front" :: xs) => handleFront id.asStr xs
+  | .list (.atom "case" :: id :: .atom "augment" :: xs) => handleAugment id.asStr xs
   | .list (.atom "echo" :: [v]) => canonV (decodeV v)
   | _ => "(bad-op)"
 
